@@ -48,7 +48,9 @@ def build(t, out, seed_shift=0):
     else:
         kw = {}
         if t[1]:
-            kw["vocabs"] = [spa.Vocabulary(16)]
+            # an explicitly supplied map for the subtree: one that already holds a vocabulary, or a still empty one
+            from nengo_spa.vocabulary import VocabularyMap
+            kw["vocabs"] = [spa.Vocabulary(16)] if STYLE[0] == 0 else VocabularyMap()
         if t[2] is not None:
             kw["seed"] = t[2] + seed_shift if STYLE[0] == 0 else np.int64(t[2] + seed_shift)
         with (spa.Network if STYLE[0] == 0 else _SUB[0])(**kw):
